@@ -717,6 +717,12 @@ class StructureVisitor(ASTTemplate):
         for name, comp in right_ds.components.items():
             if comp.role == Role.IDENTIFIER and name not in comps:
                 comps[name] = comp
+        # Viral attributes of either operand propagate to the result: the SELECT built
+        # for the operation emits them, so an enclosing operator must see them too.
+        for source_ds in (left_ds, right_ds):
+            for name, comp in source_ds.components.items():
+                if comp.role == Role.VIRAL_ATTRIBUTE and name not in comps:
+                    comps[name] = comp
 
         return Dataset(name=left_ds.name, components=comps, data=None)
 
